@@ -197,7 +197,61 @@ def extra_checks(ctx):
         if len(v) >= 8 and mean > 3 * float(a) + 0.15:
             fails.append({"what": f"mean FDP {mean:.3f} over {len(v)} simulated datasets at alpha={a} with a memorising learner",
                           "failing_input": {"alpha": a, "mean_fdp": mean}})
+    # competition between a target and the decoy of the same spectrum that TIE in score: the winner must not be decided by
+    # the position of the rows in the file (a file that lists its targets first would then lose its decoys selectively and
+    # (D+1)/T would underestimate the FDR).  Probe: 400 spectra, one target and one decoy each with the same score (12 score
+    # levels), once with all targets listed first and once with all decoys first; target-won fractions f1, f2.
+    try:
+        probe = _tie_probe(ctx)
+        info["tie_competition_probe"] = probe
+        f1, f2 = probe["target_won_targets_first"], probe["target_won_decoys_first"]
+        if (f1 >= 0.9 and f2 <= 0.1) or (f1 <= 0.1 and f2 >= 0.9):
+            fails.append({"what": ("target/decoy competition among tied scores is decided by row position: targets win "
+                                   f"{f1:.2f} of the spectra when listed first and {f2:.2f} when listed last"),
+                          "failing_input": probe})
+    except Exception as e:       # the probe must not decide anything by crashing
+        info["tie_competition_probe"] = {"crashed": f"{type(e).__name__}: {e}"[:200]}
     return fails, info
+
+
+def _tie_probe(ctx):
+    import os
+    import shutil
+    import tempfile
+    from pathlib import Path
+    import numpy as np
+    import pandas as pd
+    import mokapot
+    import mokapot.confidence as conf
+    rng = ctx.sub("tie-probe")
+    k = 400
+    level = [float(rng.randrange(12)) for _ in range(k)]
+    out = {}
+    old = conf.peps_from_scores
+    conf.peps_from_scores = lambda s, t, *a, **kw: np.zeros(len(s))
+    d = tempfile.mkdtemp(prefix="c04tie_", dir=os.environ.get("VERIF_TMP", "/tmp"))
+    try:
+        for name, first in (("target_won_targets_first", 1), ("target_won_decoys_first", -1)):
+            rows = [(j, lab) for lab in (first, -first) for j in range(k)]
+            df = pd.DataFrame({"SpecId": ["s%d_%s" % (j, "t" if lab == 1 else "d") for j, lab in rows],
+                               "Label": [lab for _, lab in rows], "ScanNr": [j + 1 for j, _ in rows],
+                               "ExpMass": [500.0 + j for j, _ in rows], "feat0": [level[j] for j, _ in rows],
+                               "Peptide": ["K.PEP%d%sK.A" % (j, "T" if lab == 1 else "D") for j, lab in rows],
+                               "Proteins": ["p"] * len(rows)})
+            pin = Path(d) / (name + ".pin")
+            df.to_csv(pin, sep="\t", index=False)
+            dest = Path(d) / name
+            dest.mkdir()
+            ds = mokapot.read_pin([pin], max_workers=1)
+            mokapot.assign_confidence(ds, max_workers=1, scores=[df["feat0"].values.astype(float)], eval_fdr=0.5, dest_dir=dest,
+                                      prefixes=[None], decoys=True)
+            t = pd.read_csv(dest / "targets.psms", sep="\t")
+            out[name] = len(t) / k
+    finally:
+        conf.peps_from_scores = old
+        shutil.rmtree(d, ignore_errors=True)
+    out["spectra"] = k
+    return out
 
 
 def finding_key(c, m, i):
